@@ -38,6 +38,19 @@ Theorem C03_join_block_that_is_fallen_into :
       (exists e, In e (cfg s) /\ nid (src e) = b2 /\ nid (tgt e) <> b2 /\ x = resource_edge e (NB b1)).
 Proof. exact join_cfg_falls_into. Qed.
 
+(* the calls of a patch: every block of the callee that returns gets a Return edge to the block behind each call of the patch that
+   targets the callee, also when the patch calls it several times (this is the statement the repaired
+   _add_return_edges_for_patch_calls meets; before the repair only one of the calls got its return edges) *)
+Theorem C03_patch_calls_get_their_return_edges :
+  forall s pcfg s' pc' ce f ft b,
+    add_return_edges_for_patch_calls s pcfg = (s', pc') ->
+    In ce pcfg -> is_call ce = true -> is_proxy (tgt ce) = false -> is_code s (nid (tgt ce)) = true ->
+    aget (nid (tgt ce)) (fbb s) = Some f ->
+    aget (nid (src ce)) (fold_left (fun m e => if is_ft e then aset (nid (src e)) (tgt e) m else m) pcfg []) = Some ft ->
+    In b (func_blocks s f) -> has_ret s b -> (forall g, g <> f -> ~ In b (func_blocks s g)) ->
+    In (mk_edge' (NB b) ft ET_RETURN) pc'.
+Proof. exact patch_calls_get_their_return_edges. Qed.
+
 (* non-vacuity: [nop nop | jmp X] split at 1 -- the branch moves to the tail, the head falls through *)
 Definition ex_state : st :=
   mk_st [(0%nat, mk_blk KCode (Some 100%nat) 0 3); (1%nat, mk_blk KCode (Some 101%nat) 0 1)]
